@@ -440,6 +440,8 @@ class Generator(AbstractODSGenerator):
             raise RP2TypeError(f"Parameter 'asset_to_computed_data' has non-Dict value {asset_to_computed_data}")
 
         self._setup_text_data(country)
+        # The year links of a previous run (if any) must not survive: the table is filled with "first row wins" semantics
+        self.__tax_sheet_year_2_row = {}
 
         template_path: str = self._get_template_path("rp2_full_report", country, generation_language)
 
@@ -824,7 +826,9 @@ class Generator(AbstractODSGenerator):
             border_suffix: str = ""
             border_style = self.__get_border_style(gain_loss.taxable_event.timestamp.year, year)
             if gain_loss.taxable_event.timestamp.year != year:
-                self.__tax_sheet_year_2_row[_AssetAndYear(asset, gain_loss.taxable_event.timestamp.year)] = row_index + 1
+                # Rows are sorted by instant but the year is the local one: with mixed UTC offsets around New Year the years can
+                # interleave (e.g. 2021, 2020, 2021), so keep the first row recorded for a year instead of overwriting it
+                self.__tax_sheet_year_2_row.setdefault(_AssetAndYear(asset, gain_loss.taxable_event.timestamp.year), row_index + 1)
             year = border_style.year
             border_suffix = border_style.border_suffix
             transparent_style: str = f"transparent{border_suffix}"
